@@ -320,9 +320,10 @@ fn run_tokens<F: Fx>(c: &mut Ctx) {
     }
     // a very long literal: no panic, still correctly rounded
     let mut long = vec![b'1', b'.'];
-    for i in 0..10000 { long.push(b'0' + (i % 10) as u8); }
+    let nl = if c.thorough() { 10000 } else { 2500 };
+    for i in 0..nl { long.push(b'0' + (i % 10) as u8); }
     ev_parse::<F>(c, 10, &long);
-    let mut longi: Vec<u8> = (0..5000).map(|i| b'0' + (i % 7) as u8).collect();
+    let mut longi: Vec<u8> = (0..nl / 2).map(|i| b'0' + (i % 7) as u8).collect();
     ev_parse::<F>(c, 8, &longi);
     longi.push(b'.');
     ev_parse::<F>(c, 10, &longi);
@@ -487,6 +488,25 @@ fn main() {
         light: o.extra.iter().any(|x| x == "--all"),
     };
     let _ = c.n;
+    if let Some(path) = &o.replay {
+        // literals chosen by the specification (tla/mc/Gen_Ties): {"L":[s,w,f],"rx":r,"s":[bytes]} per line
+        let mut table: Vec<(Lay, fn(&mut Ctx, u32, &[u8]))> = vec![];
+        macro_rules! reg { ($c:expr; $($t:ident)*) => { $( table.push((<sfv::sf::types::$t as Fx>::lay(), ev_parse::<sfv::sf::types::$t>)); )* } }
+        for_all_layouts!(reg!(&mut c;));
+        let txt = std::fs::read_to_string(path).expect("read literals");
+        for line in txt.lines().filter(|l| !l.trim().is_empty()) {
+            let v: serde_json::Value = serde_json::from_str(line).expect("json");
+            let l = v["L"].as_array().expect("L");
+            let lay = Lay { s: l[0].as_u64() == Some(1), w: l[1].as_u64().unwrap_or(0) as u32, f: l[2].as_u64().unwrap_or(0) as u32 };
+            let rx = v["rx"].as_u64().unwrap_or(10) as u32;
+            let bytes: Vec<u8> = v["s"].as_array().map(|a| a.iter().map(|b| b.as_u64().unwrap_or(0) as u8).collect()).unwrap_or_default();
+            if let Some((_, f)) = table.iter().find(|(tl, _)| *tl == lay) {
+                f(&mut c, rx, &bytes);
+            }
+        }
+        c.wr.flush();
+        return;
+    }
     if c.light {
         // sweep: every one of the 506 layouts, lightly
         for_all_layouts!(runs!(&mut c; run;));
